@@ -5,15 +5,24 @@
 //! two child instances) and a stimulus, plus `k` random subsets of the
 //! optimisation switches, all from one `Draw`.
 //!
-//! The switches are process-global, so the check binary re-executes itself
-//! as worker processes (`worker.rs`): one worker per toggle set — baseline
-//! (nothing set), each switch of `toggles::TOGGLES` flipped alone, all off,
-//! all on (stated explicitly), and the drawn subsets — each given the same
-//! case file.  A worker returns, per engine (interpreter, Cranelift JIT, now
-//! and then 4-state / `disable_ff_opt` variants and the `cc` backend), the
-//! value of every output port after every step, the `$display` text, the
-//! verdict of the native `#[test]` bench (when the case has one) and a
-//! structural summary of the built simulator IR.
+//! The switches are process-global (`OnceLock`s), so the check binary
+//! re-executes itself as worker processes (`worker.rs`), one per toggle set:
+//! baseline (no variable set), each switch of `toggles::TOGGLES` flipped
+//! alone, all off, all on (defaults stated explicitly), and a per-run table
+//! of drawn subsets (generated from a choice sequence seeded by VERIF_SEED;
+//! every case draws `k` indices into the table, index 0 when its sequence is
+//! exhausted).  The workers are long-lived servers (`c03-serve`: one case
+//! file per request, every case on a fresh thread) so that the process
+//! start-up is not paid per case; re-runs that confirm, attribute and
+//! minimise a difference use fresh one-shot processes (`c03-worker`).  Every
+//! worker regenerates nothing: it is handed the printed design and the
+//! stimulus, identical for all toggle sets.  A worker returns, per engine
+//! (interpreter, Cranelift JIT, now and then 4-state / `disable_ff_opt`
+//! variants and the `cc` backend), the value of every output port after every
+//! step, the `$display` text, the verdict and output of the native `#[test]`
+//! bench (one case in three carries one that replays the stimulus and ends
+//! with two `$assert`s on drawn guesses) and a structural summary of the
+//! built simulator IR.
 //!
 //! Oracle: everything a worker observed equals what the baseline worker
 //! observed on the same engine.  A difference is reported only after the two
@@ -395,7 +404,7 @@ fn pick_shapes(d: &mut Draw, n: usize, allow_cone: bool) -> Vec<&'static str> {
         let s = shapes::SHAPES[d.weighted(&[3, 2, 2, 2, 3, 2, 3, 3, 2, 2])];
         v.push(s);
     }
-    if allow_cone && d.chance(1, 14) {
+    if allow_cone && d.chance(1, 40) {
         v.clear();
         v.push("cone");
         if d.bool() {
@@ -408,7 +417,9 @@ fn pick_shapes(d: &mut Draw, n: usize, allow_cone: bool) -> Vec<&'static str> {
 pub fn gen_case(d: &mut Draw, n_subsets: usize, n_table: usize) -> Case {
     let mut classes: BTreeSet<String> = BTreeSet::new();
     let mut excluded: BTreeMap<String, u64> = BTreeMap::new();
-    let mode = d.weighted(&[3, 4, 4]);
+    // the cone template only gates as a child instance: decided first
+    let cone_case = std::env::var("C03_FORCE_SHAPE").is_err() && d.chance(1, 14);
+    let mode = if cone_case { 2 } else { d.weighted(&[3, 4, 4]) };
     let design = match mode {
         0 => {
             // generic design, now and then with shapes added to its top module
@@ -465,12 +476,21 @@ pub fn gen_case(d: &mut Draw, n_subsets: usize, n_table: usize) -> Case {
             let n_in = d.range(2, 5) as usize;
             sb.ensure_inputs(d, n_in);
             let n = 1 + d.below(4) as usize;
-            for s in pick_shapes(d, n, true) {
+            let picked = if cone_case {
+                let mut v = vec!["cone"];
+                if d.bool() {
+                    v.extend(pick_shapes(d, 1, false));
+                }
+                v
+            } else {
+                pick_shapes(d, n, true)
+            };
+            for s in picked {
                 shapes::apply(&mut sb, d, s);
             }
             let (m, c) = sb.finish();
             classes.extend(c);
-            let copies = 1 + d.below(2) as usize;
+            let copies = if cone_case && d.chance(3, 4) { 1 } else { 1 + d.below(2) as usize };
             classes.insert(format!("gen:shapes_child_x{copies}"));
             shapes::wrap(d, m, copies)
         }
@@ -692,6 +712,8 @@ pub struct Run<'a> {
     pub first_subset: usize,
     pub n_table: usize,
     pub ticket: std::sync::atomic::AtomicUsize,
+    /// switch index → number of cases on which it had a structural effect
+    pub effect_counts: std::sync::Mutex<BTreeMap<usize, u64>>,
 }
 
 /// Known finding `dead_var_dce:port-value+needs[comb_fusion]`: with
@@ -953,6 +975,7 @@ pub fn evaluate(run: &Run, case: &Case, dce_excluded: bool) -> Outcome {
         let mut classes: Vec<String> = case.classes.iter().cloned().collect();
         let mut passes: BTreeSet<&str> = BTreeSet::new();
         for &i in &effects {
+            *run.effect_counts.lock().unwrap().entry(i).or_insert(0) += 1;
             classes.push(format!("effect:{}", TOGGLES[i].name));
             passes.insert(TOGGLES[i].pass);
             ctx.note_add(&format!("effect/{}", TOGGLES[i].name), 1);
@@ -1158,9 +1181,22 @@ pub fn run(ctx: &Ctx) {
         first_subset,
         n_table,
         ticket: std::sync::atomic::AtomicUsize::new(0),
+        effect_counts: std::sync::Mutex::new(BTreeMap::new()),
     };
     ctx.run("designs", cfg, |d| one_case(&run, d));
     run.pool.shutdown();
+    if !ctx.replay_mode() {
+        // generator self-test: every pass of the property text must have fired somewhere
+        let counts = run.effect_counts.lock().unwrap().clone();
+        let mut per_pass: BTreeMap<&str, u64> = BTreeMap::new();
+        for (i, t) in TOGGLES.iter().enumerate() {
+            *per_pass.entry(t.pass).or_insert(0) += counts.get(&i).copied().unwrap_or(0);
+        }
+        ctx.note("pass_effect_histogram", json!(per_pass));
+        ctx.note("switch_effect_histogram", json!(TOGGLES.iter().enumerate().map(|(i, t)| (t.name, counts.get(&i).copied().unwrap_or(0))).collect::<BTreeMap<_, _>>()));
+        let silent: Vec<&str> = per_pass.iter().filter(|(_, n)| **n == 0).map(|(p, _)| *p).collect();
+        ctx.note("self_test/passes_without_effect", json!(silent));
+    }
     let _ = std::fs::remove_dir_all(aot_dir());
     ctx.assume("a worker process that crashes or exceeds its time limit, an engine that fails to build / panics under one toggle set only, and a difference that does not reproduce when the two toggle sets are re-run alone are inconclusive (counted under inconclusive/*), never violations");
     ctx.assume("values of internal variables (Simulator::get_var) are not compared: fused and dead variables legitimately keep stale storage; the property speaks of ports, $display and verdicts");
